@@ -81,6 +81,8 @@ extern int mpt_vprintf(MPT_STRUCT(array) *arr, const char *format, va_list args)
 		len += 64;
 	}
 	if (!(base = mpt_array_slice(arr, used, len))) {
+		/* first attempt extended the used size */
+		buf->_used = used;
 		return MPT_ERROR(BadOperation);
 	}
 	buf = arr->_buf;
